@@ -1,9 +1,27 @@
 """C11: copy / move / swap / assignment — model theorems + K2 multi-object correspondence (DESIGN.md 6/C11, 12)."""
+import random
+
+import common as C
+import k2
 import k2check
 
 
+def allocator_streams(tier):
+    """multi-object streams against builds with an identity-carrying allocator, one build per propagation policy"""
+    rng = random.Random(C.seed() * 7919 + 11)
+    out = []
+    shapes = [(2, 4, 0)] if tier == "quick" else [(1, 2, 0), (2, 4, 0), (4, 8, 1), (3, 8, 0), (8, 2, 1)]
+    for apol in range(8):
+        for (S, M, kind) in shapes:
+            for hm in ((0, 2, 4) if tier == "quick" else (0, 1, 2, 3, 4, 5)):
+                cfg = k2.Cfg(S, M, kind, hm, apol=apol)
+                g = k2.Gen(random.Random(rng.getrandbits(48)), cfg, "allocators")
+                out.append((cfg, g.run(300 if tier == "quick" else 1500, allow_mlf0=(hm in (0, 4)), universe=rng.choice([12, 48, 200]))))
+    return out
+
+
 def run(tier):
-    return k2check.run("C11", tier, profile="objects")
+    return k2check.run("C11", tier, profile="objects", extra_streams=allocator_streams(tier))
 
 
 def replay(path):
